@@ -18,10 +18,12 @@ const LITERALS: &[&str] = &[
 static NO_OPEN_QUOTES: std::sync::atomic::AtomicBool = std::sync::atomic::AtomicBool::new(false);
 const AUTHORS: &[&str] = &["human", "aaaaaaaaaaaaaaa1", "bbbbbbbbbbbbbbb2", "ccccccccccccccc3"];
 
+#[derive(Clone)]
 struct Line {
     text: String,
     author: String, // ground truth author of the line ("human" or a session id)
     moved: bool,
+    strict_moved: bool,
     fresh: bool,
 }
 
@@ -45,7 +47,7 @@ fn fresh_line2(rng: &mut Rng, n: &mut usize, author: &str, no_long: bool) -> Lin
         text.push(' ');
         text.push_str(&"x".repeat(*rng.pick(&[300usize, 5000, 40000])));
     }
-    Line { text, author: author.to_string(), moved: false, fresh: true }
+    Line { text, author: author.to_string(), moved: false, strict_moved: false, fresh: true }
 }
 
 fn join(lines: &[Line], eol: &str, final_nl: bool) -> String {
@@ -111,6 +113,11 @@ pub fn run(seed: u64, n: usize, extra: &[String]) -> String {
     let no_long = off.contains("tracker_long_lines");
     let no_large = off.contains("tracker_large_inputs");
     let no_noeol_append = off.contains("tracker_noeol_append");
+    // finding D61: where a moved block lands next to a line with which it shares leading or trailing tokens the token diff may slide
+    // the insertion boundary: in the "apart" shape the unchanged line after the landed block takes the block's author, in the
+    // "together" shape the first line of the second landed half does. While it is open (flag given) the "together" shape is not
+    // generated and, in the "apart" shape, only that one rule is counted instead of reported.
+    let d61_open = off.contains("tracker_split_move_slide");
     NO_OPEN_QUOTES.store(off.contains("tracker_unterminated_quote"), std::sync::atomic::Ordering::Relaxed);
     let mut viol: Vec<serde_json::Value> = Vec::new();
     let mut sigs: BTreeSet<String> = BTreeSet::new();
@@ -196,12 +203,12 @@ pub fn run(seed: u64, n: usize, extra: &[String]) -> String {
         let nlines = if rng.chance(1, 40) && !no_large { 400 } else { nlines };
         let final_nl = final_nl || no_noeol_append;
         let mut lines: Vec<Line> = (0..nlines).map(|_| { let a = rng.pick(AUTHORS).to_string(); let mut l = fresh_line2(&mut rng, &mut tok, &a, no_long); l.fresh = false; l }).collect();
-        let old = join(&lines, eol, final_nl);
-        let old_attrs = attrs_for(&lines, eol, final_nl, 1);
+        let mut old = join(&lines, eol, final_nl);
+        let mut old_attrs = attrs_for(&lines, eol, final_nl, 1);
         let author = rng.pick(AUTHORS).to_string();
         let mut ops: Vec<String> = Vec::new();
         let mut ws_only = false;
-        let kind = rng.below(9);
+        let kind = rng.below(10);
         let mut new_eol = eol;
         match kind {
             0 => { ops.push("identical".into()); }
@@ -251,6 +258,36 @@ pub fn run(seed: u64, n: usize, extra: &[String]) -> String {
                     ops.push(format!("move@{}+{}->{}", a, k, pos));
                 }
             }
+            9 => {
+                // one contiguous block whose two halves (>= 3 lines each, different prior authors) are both moved in one edit, far
+                // enough (past a longer run of untouched lines) that the block is the moved piece, landing swapped - together or apart.
+                // Moved blocks of at least the tracker's threshold keep their authors: asserted exactly for these lines.
+                let mk = |rng: &mut Rng, tok: &mut usize, a: &str, n: usize| -> Vec<Line> { (0..n).map(|_| { let mut l = fresh_line2(rng, tok, a, true); l.fresh = false; l }).collect() };
+                let a1 = rng.pick(AUTHORS).to_string();
+                let mut a2 = rng.pick(AUTHORS).to_string();
+                if a2 == a1 { a2 = if a1 == "human" { AUTHORS[1].to_string() } else { "human".to_string() }; }
+                let x = { let a = rng.pick(AUTHORS).to_string(); let n = 2 + rng.below(3); mk(&mut rng, &mut tok, &a, n) };
+                let h1 = { let n = 3 + rng.below(3); mk(&mut rng, &mut tok, &a1, n) };
+                let h2 = { let n = 3 + rng.below(3); mk(&mut rng, &mut tok, &a2, n) };
+                let y = { let a = rng.pick(AUTHORS).to_string(); let n = 14 + rng.below(5); mk(&mut rng, &mut tok, &a, n) };
+                let z = { let a = rng.pick(AUTHORS).to_string(); let n = rng.below(3); mk(&mut rng, &mut tok, &a, n) };
+                lines = x.iter().chain(h1.iter()).chain(h2.iter()).chain(y.iter()).chain(z.iter()).cloned().collect();
+                old = join(&lines, eol, final_nl);
+                old_attrs = attrs_for(&lines, eol, final_nl, 1);
+                let strict = |v: &Vec<Line>| -> Vec<Line> { v.iter().cloned().map(|mut l| { l.strict_moved = true; l }).collect() };
+                let (s1, s2) = (strict(&h1), strict(&h2));
+                let apart = rng.chance(1, 2) || d61_open;
+                let mut nl: Vec<Line> = x.clone();
+                if apart {
+                    let m = 6 + rng.below(y.len() - 11);
+                    nl.extend(y[..m].iter().cloned()); nl.extend(s2); nl.extend(y[m..].iter().cloned()); nl.extend(s1);
+                } else {
+                    nl.extend(y.iter().cloned()); nl.extend(s2); nl.extend(s1);
+                }
+                nl.extend(z.iter().cloned());
+                lines = nl;
+                ops.push(format!("split-move:{}+{}:{}", h1.len(), h2.len(), if apart { "apart" } else { "together" }));
+            }
             7 => {
                 // intra-line token insertion
                 if !lines.is_empty() {
@@ -278,6 +315,10 @@ pub fn run(seed: u64, n: usize, extra: &[String]) -> String {
             Ok(Ok(a)) => a,
         };
         if let Some(p) = check_bounds(&attrs, &new) {
+            if d61_open && kind == 9 && p.contains("char boundaries") {
+                *counters.entry("d61_instances(split-move: range boundary inside a multi-byte character)").or_insert(0) += 1;
+                continue;
+            }
             viol.push(json!({"kind": "C16/bounds-update", "problem": p, "ops": ops, "old": trunc(&old), "new": trunc(&new)}));
             continue;
         }
@@ -291,11 +332,22 @@ pub fn run(seed: u64, n: usize, extra: &[String]) -> String {
             if l.text.trim().is_empty() {
                 continue;
             }
+            if l.strict_moved {
+                *counters.entry("strict_moved_lines_checked").or_insert(0) += 1;
+                if g != l.author {
+                    bad = Some(json!({"kind": "C16/moved-block-lost-author", "line": ln, "text": trunc(&l.text), "truth": l.author, "mover": author, "got": g}));
+                    break;
+                }
+                continue;
+            }
             if l.moved {
                 // moved blocks keep their authors or take the mover: never a third party
                 if g != l.author && g != author {
                     bad = Some(json!({"kind": "C16/moved-line-third-party", "line": ln, "text": trunc(&l.text), "truth": l.author, "mover": author, "got": g}));
                     break;
+                }
+                if l.author != author {
+                    *counters.entry(if g == l.author { "moved_region_lines_kept_author" } else { "moved_region_lines_taken_by_mover" }).or_insert(0) += 1;
                 }
                 continue;
             }
@@ -304,6 +356,16 @@ pub fn run(seed: u64, n: usize, extra: &[String]) -> String {
                 bad = Some(json!({"kind": k, "line": ln, "text": trunc(&l.text), "truth": l.author, "reporting_author": author, "got": g}));
                 break;
             }
+        }
+        if kind == 9 {
+            let shape = ops.last().cloned().unwrap_or_default();
+            let apart = if shape.ends_with("apart") { "apart" } else { "together" };
+            let verdict = match &bad { None => "held".to_string(), Some(b) => b["kind"].as_str().unwrap_or("?").replace("C16/", "") };
+            *counters.entry(Box::leak(format!("split_move:{}:mover={}:{}", apart, if author == "human" { "person" } else { "agent" }, verdict).into_boxed_str())).or_insert(0) += 1;
+        }
+        if d61_open && kind == 9 && bad.as_ref().map(|b| b["kind"] == "C16/unchanged-line-changed-author").unwrap_or(false) {
+            *counters.entry("d61_instances(split-move apart: unchanged line next to the landed block)").or_insert(0) += 1;
+            bad = None;
         }
         if let Some(mut b) = bad {
             b["ops"] = json!(ops);
